@@ -4,6 +4,25 @@ import json, pathlib
 V = pathlib.Path(__file__).resolve().parent.parent
 ALL = [f"C{i:02d}" for i in range(1, 20)]
 CLAIMED = {
+ "C12": dict(
+   text="Coq theorems over Chan.v (channel store with ordered connection lists; connect/disconnect/disconnect_all/"
+        "copy_connections with its undo log, panel and node level helpers, >> and <<, call keywords, remove_child, replace_child, "
+        "topology wiring and pull): the invariant Sym /\\ Conj /\\ NoDup (+ hint-valid strict data connections) holds in every state "
+        "reachable by ANY op sequence and is preserved by every single op from any invariant state; refused connects and "
+        "disconnects of unconnected channels leave the whole state equal; after remove_child / node.disconnect / replace_child no "
+        "channel points at the node. Edit histories on real nodes are compared with the model after every op.",
+   design="7/C12", technique="Coq invariant proof by induction over op lists + differential correspondence + oracle",
+   note="Macro value_receiver links are not connections (S22 observation) and are outside this layer; executors/merge and "
+        "restore-from-state are covered by C10/C07. Iteration orders of python sets are read back from the implementation."),
+ "C13": dict(
+   text="Coq theorems over Lex.v (parent pointers, ordered label<->child maps, starting nodes; _set_parent, add_child, remove_child, "
+        "label uniqueness/suffixing, cyclic test by identity walk, Workflow parent setter, replace_child, __setattr__, parent= at "
+        "construction): the ownership invariant (both views agree, unique sibling labels, no reserved labels, well-founded parent "
+        "chains, workflows parentless, starting nodes are children) holds after EVERY history of operations, and a refused operation "
+        "leaves the state literally equal. Histories on real Workflows/Macros/leaves are compared with the model after every op.",
+   design="7/C13", technique="Coq invariant proof by induction over op lists + differential correspondence + oracle",
+   note="Full theorems hold for the code after fix commits 41b18f7 251e8e4 c6a0b05 bbd293b (S8 S9 S10 K1-K4). Connections, value "
+        "links and pickling are outside this layer."),
  "C03": dict(
    text="Coq theorems over Fetch.v (value setter with lock test, own type check, forwarding along value-receiver chains before "
         "the store; InputData.fetch; DataChannel.ready; set_input_values -> fetch -> readiness gate -> call): fetch takes the most "
